@@ -46,22 +46,20 @@ pub(super) fn index_for_rcurrent(
 
 pub(super) fn get_highest_index(file_spec: &FileSpec) -> std::io::Result<Option<u32>> {
     let mut o_highest_idx = None;
+    // the infix follows the fixed name part (and an underscore, if that is not empty) and starts with r;
+    // searching for "_r" in the whole name would also find it in the suffix
+    let fixed_name_part = file_spec.fixed_name_part();
+    let prefix = if fixed_name_part.is_empty() {
+        "r".to_string()
+    } else {
+        format!("{fixed_name_part}_r")
+    };
     for file in
         super::list_and_cleanup::list_of_log_and_compressed_files(file_spec, &InfixFilter::Numbrs)?
     {
         let name = file.file_name().unwrap(/*ok*/).to_string_lossy();
-        let infix = if file_spec.has_basename()
-            || file_spec.has_discriminant()
-            || file_spec.uses_timestamp()
-        {
-            // infix is the last, but not the first part of the name, starts with _r
-            match name.rsplit("_r").next() {
-                Some(infix) => infix,
-                None => continue, // ignore unexpected files
-            }
-        } else {
-            // infix is the only part of the name, just skip over the r
-            &name[1..]
+        let Some(infix) = name.strip_prefix(&prefix) else {
+            continue; // ignore unexpected files
         };
 
         // the number is followed by the suffix, and by .gz for a compressed file
